@@ -15,7 +15,8 @@ from ..harness import Check
 from ..snap import abs_value
 from .c13 import Env, item_eq
 
-UNIVERSES = ["str", "int", "tuple_keyfn", "kitem", "kitem_typed", "str_typed", "tuple_typed", "unhashable_keyfn"]
+UNIVERSES = ["str", "int", "tuple_keyfn", "kitem", "kitem_typed", "str_typed", "tuple_typed", "unhashable_keyfn",
+             "repr_keyfn", "repr_keyfn"]
 BINOPS = ["or", "and", "sub", "xor"]
 CMPOPS = ["le", "lt", "ge", "gt", "eq", "ne", "isdisjoint"]
 INPLACE = ["ior", "iand", "isub", "ixor"]
@@ -229,7 +230,7 @@ class C14(Check):
             seen = set()
             for _ in range(src.randint(0, 4)):
                 it = env.gen_item(src)
-                k = repr(it[1][0] if isinstance(it, list) and it[0] == "tuple" else it[1]["k"] if isinstance(it, list) else it)
+                k = repr(env.key(env.build(it)))
                 if k not in seen:
                     seen.add(k)
                     init.append(it)
